@@ -41,6 +41,15 @@ def impl_escape(x):
         return "EXC:" + type(e).__name__
 
 
+def impl_escape_text(x):
+    """ford.sourceform._esc, the text-level escape used by full_type / full_declaration"""
+    try:
+        import ford.sourceform as sf
+        return str(sf._esc(x))
+    except Exception as e:  # noqa
+        return "EXC:" + type(e).__name__
+
+
 class _View(__import__("html.parser").parser.HTMLParser):
     def __init__(self):
         super().__init__(convert_charrefs=True)
